@@ -457,6 +457,10 @@ def extract(units, extra_units=(), roots=None, keep=None):
             raise AnalysisBroken('units with parse errors: %s' % ', '.join(prog.parse_errors))
         prog.finish()
         prog.units = todo
+        prog.realiased = 0
+        if not os.environ.get('TBX_NO_ALIAS'):
+            from . import names
+            prog.realiased = names.apply(prog)
         return prog
     finally:
         if keep:
